@@ -6,12 +6,13 @@ cd "$HERE"
 WT=$(mktemp -d /tmp/seedmx-XXXX); rmdir $WT
 git -C /repo worktree add -q --detach $WT HEAD || exit 3
 trap 'git -C /repo worktree remove --force $WT; rm -rf $WT' EXIT INT TERM
+SEEDS_DIR=${SEEDS_DIR:-$HERE/seeded}
 OUT=${MATRIX_OUT:-$HERE/seeded/RESULTS.tsv}
 [ $# -eq 0 ] && : > $OUT
-SEEDS=${@:-$(ls seeded | grep -v RESULTS)}
+SEEDS=${@:-$(ls $SEEDS_DIR | grep -v RESULTS)}
 for s in $SEEDS; do
-  prop=$(python3 -c "import json;print(json.load(open('seeded/$s/meta.json'))['property'])")
-  git -C $WT checkout -q -- . ; git -C $WT apply $HERE/seeded/$s/patch.diff || { echo -e "$s\t$prop\tAPPLY-FAILED" >> $OUT; continue; }
+  prop=$(python3 -c "import json;print(json.load(open('$SEEDS_DIR/$s/meta.json'))['property'])")
+  git -C $WT checkout -q -- . ; git -C $WT apply $SEEDS_DIR/$s/patch.diff || { echo -e "$s\t$prop\tAPPLY-FAILED" >> $OUT; continue; }
   VERIF_REPO=$WT VERIF_JOBS=${VERIF_JOBS:-16} timeout 2400 ./check $prop --tier quick > /tmp/mx_$s.log 2>&1; rc=$?
   line=$(grep -E "^== $prop:" /tmp/mx_$s.log | tail -1)
   echo -e "$s\t$prop\trc=$rc\t$line" >> $OUT
